@@ -177,6 +177,18 @@ def run(ctx, res):
             break
     r4b_result(F, res, rid4)
     r6_stop_recognizer(ctx, res)
+    # the leaves are the text AT their span: a recogniser that can match further on in the input yields leaves that are not
+    # (decided on the generated recognisers by C13-R8, shared; its template finding D11 is a C02 finding as well)
+    from . import c13 as _c13, report as _report
+    rid8 = res.rule("C02-R8", "generated regex recognisers match at the current position only (anchored as a whole; shared with C13-R8)", floor=20)
+    sub8 = _report.Result("C02", ctx.tier)
+    _c13.r_generated(ctx, sub8)
+    for inst in sub8.instances:
+        if inst["rule"] == "C13-R8" and inst["ok"]:
+            res.ok(rid8, inst["instance"], inst.get("where"), inst.get("detail"))
+    for v in sub8.violations:
+        if v["rule"] == "C13-R8":
+            res.violation(rid8, v["key"].split("/", 1)[1], v["what"], v.get("where"))
     # "a successful parse": the LR loop may answer Ok only through Accept (decided by C12-R5 on the same paths, shared)
     from . import c12, c07, report
     rid7 = res.rule("C02-R7", "the LR loop leaves with Ok only through Action::Accept; every other exit is an Err (shared with C12-R5)", floor=1)
